@@ -347,6 +347,16 @@ fn distances(lim: i64) -> Vec<i64> {
     v
 }
 
+/// Make the case a reachable one (used where only valid programs are wanted).
+pub fn clamp_reachable(mut c: RelCase) -> RelCase {
+    let ks = kinds();
+    let lim = limit(&ks[c.kind % ks.len()]);
+    if !(-lim..lim).contains(&c.d) {
+        c.d %= lim;
+    }
+    c
+}
+
 pub fn rel_case() -> impl Strategy<Value = RelCase> {
     (0usize..22, 0u8..8, 0u8..11, -4000i64..4000, any::<u8>(), proptest::collection::vec(any::<u8>(), 0..12), 0u8..4, any::<u8>(), gen::style(), 0u8..8).prop_map(|(kind, s, near_far, off, prefix, filler, spelling, k, style, dev)| {
         let ks = kinds();
